@@ -30,6 +30,8 @@ func init() {
 		Assumptions: []string{"resource.Value/Collection write semantics (C02, C05)", "unitpb.Convert32 arithmetic (C18)"},
 		Run:         runC20,
 		Controls: []Control{
+			{Name: "meter-initial-stamp-from-wall-clock", File: "pkg/trait/meterpb/model.go", Old: "\t\tnow := value.Clock().Now()\n", New: "\t\tnow := time.Now()\n", Expect: "R20.18"},
+			{Name: "echoed-total-not-counted", File: "pkg/trait/enterleavesensorpb/model.go", Old: "\t\t\tif val != nil && *val != cv {\n", New: "\t\t\tif val != nil {\n", Expect: "R20.9"},
 			{Name: "revert-F62-empty-preset-name-looked-up", File: "pkg/trait/fanspeedpb/model.go", Old: "\tif newVal.Preset != \"\" && oldVal.Preset != newVal.Preset {\n", New: "\tif oldVal.Preset != newVal.Preset {\n", Expect: "R20.17"},
 			{Name: "meter-defaults-after-callers-options", File: "pkg/trait/meterpb/model.go", Old: "\tvalue := resource.NewValue(append(defaultOptions, opts...)...)\n", New: "\tvalue := resource.NewValue(append(opts, defaultOptions...)...)\n", Expect: "R20.16"},
 			{Name: "presets-option-appends", File: "pkg/trait/fanspeedpb/model_opts.go", Old: "\t\targs.presets = presets\n", New: "\t\targs.presets = append(args.presets, presets...)\n", Expect: "R20.1"},
@@ -61,6 +63,8 @@ func init() {
 
 func runC20(c *an.Ctx) {
 	r2017(c, "R20.17")
+	r2018(c, "R20.18")
+	c.Min("R20.18", 3)
 	c.Min("R20.17", 1)
 	// defaults first, the caller's options last: an append onto the caller's variadic options puts the defaults after them,
 	// where they override what the caller configured (shared with R11.7, which reports the same construct as a race)
@@ -1235,6 +1239,47 @@ func r209(c *an.Ctx) {
 				}
 			})
 			c.Check(okInc, rule, an.FuncName(top)+"|a total grows by one exactly when its direction matches", fn.Pos(), "", "the increment of a total is not guarded by the direction flag")
+			// the caller's total is taken over only when it DIFFERS from the current one: an event that echoes the current
+			// total (what a client that read the last event sends back) still counts
+			okDiff, nRet := true, 0
+			for _, r := range an.Returns(fn) {
+				takesVal := false
+				for _, v := range localValues(r.Results[0], 0) {
+					if v == ssa.Value(fn.Params[0]) {
+						takesVal = true
+					}
+				}
+				if !takesVal {
+					continue
+				}
+				nRet++
+				differs := false
+				for _, g := range guardsThroughAnd(r) {
+					bo, isBO := g.If.Cond.(*ssa.BinOp)
+					if !isBO || (bo.Op != token.NEQ && bo.Op != token.EQL) {
+						continue
+					}
+					if g.Branch != (bo.Op == token.NEQ) {
+						continue
+					}
+					for _, side := range []ssa.Value{bo.X, bo.Y} {
+						if u, isU := side.(*ssa.UnOp); isU && u.Op == token.MUL {
+							for _, s0 := range localValues(u.X, 0) {
+								if s0 == ssa.Value(fn.Params[0]) {
+									differs = true
+								}
+							}
+							if u.X == ssa.Value(fn.Params[0]) {
+								differs = true
+							}
+						}
+					}
+				}
+				if !differs {
+					okDiff = false
+				}
+			}
+			c.Check(okDiff && nRet > 0, rule, an.FuncName(top)+"|a supplied total replaces the current one only when it differs", fn.Pos(), "", "the total carried by the event is taken over whenever it is present, also when it merely repeats the current total: such an event is then not counted, and the totals fall behind the number of events")
 		}
 	}
 	// meter
@@ -2073,4 +2118,58 @@ func guardsThroughAnd(in ssa.Instruction) []an.CondEdge {
 	}
 	add(an.GuardingEdges(in), 0)
 	return out
+}
+
+// r2018: one source of time per model. A trait package whose model takes its times from the resource's clock
+// (value.Clock().Now(), collection.Clock().Now()) or from a clock of its own takes ALL of them from there: no
+// time.Now() / timestamppb.Now() next to it. A model built with a test or simulation clock otherwise mixes two time
+// lines - a meter whose start time lies after its end time, a publication stamped with wall time.
+func r2018(c *an.Ctx, rule string) {
+	type pkgInfo struct {
+		usesClock bool
+		wall      []ssa.Instruction
+		fns       map[string]bool
+	}
+	pkgs := map[string]*pkgInfo{}
+	for _, fn := range c.Prog.FuncsIn("pkg/trait") {
+		if c.Prog.IsGenerated(fn.Pos()) || fn.Package() == nil {
+			continue
+		}
+		pk := an.ModRel(fn.Package().Pkg.Path())
+		pi := pkgs[pk]
+		if pi == nil {
+			pi = &pkgInfo{fns: map[string]bool{}}
+			pkgs[pk] = pi
+		}
+		an.Instrs(fn, func(in ssa.Instruction) {
+			call, ok := in.(ssa.CallInstruction)
+			if !ok {
+				return
+			}
+			n := an.CalleeName(call)
+			switch {
+			case strings.HasSuffix(n, "/pkg/resource.Value).Clock") || strings.HasSuffix(n, "/pkg/resource.Collection).Clock"):
+				pi.usesClock = true
+			case call.Common().IsInvoke() && call.Common().Method.Name() == "Now" && strings.HasSuffix(an.NamedTypeName(call.Common().Value.Type()), "Clock"):
+				pi.usesClock = true
+			case n == "time.Now" || n == "google.golang.org/protobuf/types/known/timestamppb.Now":
+				pi.wall = append(pi.wall, in)
+				pi.fns[an.FuncName(fn)] = true
+			}
+		})
+	}
+	n := 0
+	for _, pk := range an.SortedKeys(pkgs) {
+		pi := pkgs[pk]
+		if !pi.usesClock {
+			continue
+		}
+		n++
+		if len(pi.wall) == 0 {
+			c.Ok(rule, pk+"|every time comes from the model's clock", 0, "")
+			continue
+		}
+		c.Bad(rule, pk+"|every time comes from the model's clock", pi.wall[0].Pos(), "the package takes times from the resource's / model's clock and, in "+strings.Join(an.SortedKeys(pi.fns), ", ")+", from the wall clock as well: a model built with a configured clock stamps some of its times with time.Now(), so values that should agree (a meter's start and end time, an initial value and the first reading) come from two time lines")
+	}
+	c.Count("packages_with_a_model_clock", n)
 }
